@@ -242,6 +242,11 @@ def check(ctx):
                        files={"run4.cfg": (CFG % dict(exps='"ea", "eb"', peers="FALSE", dev="FALSE", ops=4 if thorough else 3, emit="TRUE"))
                               .replace("Ids = {256, 257}", "Ids = {257}").replace("Versions = {1, 2}", "Versions = {1, 3, 4, 5}")})
     hists_scope = [c["hist"] for c in r4.cases if any(o["op"] == "data" for o in c["hist"])]
+    # the colliding pair alone on one id, longer histories: announcement, collision, redefinition by either, data
+    r5 = ctx.tlc_model("TemplateCacheMC", "run5.cfg", want_cases=True,
+                       files={"run5.cfg": (CFG % dict(exps='"ea", "eb"', peers="FALSE", dev="FALSE", ops=6 if thorough else 5, emit="TRUE"))
+                              .replace("Ids = {256, 257}", "Ids = {257}")})
+    hists_pair = [c["hist"] for c in r5.cases if len(c["hist"]) >= 4 and c["hist"][-1]["op"] == "data" and len({o["e"] for o in c["hist"]}) == 2]
     hists = [c["hist"] for c in r1.cases if c["hist"]]
     hists_peer = [c["hist"] for c in r2.cases if c["hist"] and any(o["op"].startswith("peer") for o in c["hist"])]
     ctx.note("TLC emitted %d + %d histories" % (len(hists), len(hists_peer)))
@@ -267,6 +272,10 @@ def check(ctx):
         for h in hists_scope:
             jobs.append(job_of(proto, h, a4))
             meta.append((h, a4))
+        for hi, h in enumerate(hists_pair):
+            addr = a16 if hi % 2 else a4
+            jobs.append(job_of(proto, h, addr))
+            meta.append((h, addr))
         if proto == "ipfix":
             for h in hists_peer:
                 jobs.append(job_of(proto, h, a4))
@@ -277,7 +286,7 @@ def check(ctx):
         ctx.traces_validated += len(jobs)
         # the same histories with consecutive operations of one exporter merged into one message
         mjobs, mmeta = [], []
-        for h in hists + hists_scope + (hists_peer if proto == "ipfix" else []):
+        for h in hists + hists_scope + hists_pair + (hists_peer if proto == "ipfix" else []):
             if any(h[n]["e"] == h[n + 1]["e"] and h[n]["op"] in ("announce", "data") and h[n + 1]["op"] in ("announce", "data")
                    for n in range(len(h) - 1)):
                 job, groups = job_merged(proto, h, a4)
